@@ -136,6 +136,8 @@ pub mod spaces;
 #[cfg(feature = "sqlite")]
 pub mod sqlite;
 pub mod topics;
+#[cfg(p2panda_p2panda_verif)]
+pub mod verif;
 mod traits;
 
 #[cfg(feature = "sqlite")]
